@@ -77,6 +77,10 @@ def c20_run(ctx, search=False):
     max_n = 11 if ctx.tier == "quick" else 16
     shards = 8 if ctx.tier == "quick" else 16
     summary, cases = eval_bitcases(ctx, "sel", ["--max-n", max_n, "--shards", shards], "sel")
+    # larger n: the first steps of every (n,k) up to n = 18 (what room branching can request) and binom for all n <= 62
+    s_p, cases_p = eval_bitcases(ctx, "selp", ["--min-n", max_n + 1, "--max-n", 18, "--steps", 40 if ctx.tier == "quick" else 400], "selp")
+    s_b, cases_b = eval_bitcases(ctx, "selp", ["--min-n", 1, "--max-n", 0], "binom")
+    cases = cases + cases_p + cases_b
     viol, known, disagree, _ = classify(
         ctx, cases, "k-subset enumeration / size_hint / binom exactness (spec predicate on the implementation's output)",
         "SelModel vs util.rs")
@@ -95,12 +99,13 @@ def c20_run(ctx, search=False):
                              "disagreements": len(disagree)})
             viol.append(("model and implementation of the k-subset iterator disagree on (n,k)=(%s,%s)" % (
                 c["meta"]["n"], c["meta"]["k"]), rp, True))
-    nontrivial = {(c["meta"]["n"], c["meta"]["k"]) for c in cases if c["code"] & BIT_CLASS}
+    nontrivial = {(c["meta"]["n"], c["meta"]["k"], c["meta"].get("mode", "full")) for c in cases if c["code"] & BIT_CLASS}
     cov = {
         "evaluations": len(cases),
         "distinct_nontrivial": len(nontrivial),
-        "rule": "every (n,k) with 0 <= n <= %d and 0 <= k <= n+2 run on the real iterator (values, size_hint before every next "
-                "and after the final None, binom); non-trivial = distinct (n,k) with 1 <= k <= n" % max_n,
+        "rule": "every (n,k) with 0 <= n <= %d and 0 <= k <= n+2 run on the real iterator to exhaustion (values, size_hint before every "
+                "next and after the final None, binom); for %d <= n <= 18 the first steps of every (n,k); binom for all n <= 62, k <= n+1 "
+                "(overflow panic of the debug build included); non-trivial = distinct (n,k,mode) with 1 <= k <= n (binom: n <= 57)" % (max_n, max_n + 1),
         "exhaustive": True,
         "input_distribution": {"max_n": max_n, "index_vectors_yielded": summary.get("total_vectors"),
                                "cases_in_class_1<=k<=n": len(nontrivial), "cases_outside_class": len(cases) - len(nontrivial)},
